@@ -76,12 +76,20 @@ def model(i, plan, table):
     return rec["deps"], rec["raises"]
 
 
+def _quiet(f, *a):
+    try:
+        f(*a)
+    except Exception:
+        pass
+
+
 def case(args):
     import twosigma.memento as m
     from .c15 import mk_backend, use
     from ..fixtures import c10fx as fx
 
-    kind, mode, plan, pre, other = args
+    kind, mode, plan, pre, other = args[:5]
+    lose = len(args) > 5 and args[5]  # the stored RESULTS of the pre-memoized calls are lost (their mementos stay)
     nodes = {0: fx.n0, 1: fx.n1, 2: fx.n2, 3: fx.n3}
     top = scratch_dir("c10")
     out = {"evaluations": 1, "states": 1, "transitions": 0, "traces": 1, "violations": [], "outcomes": []}
@@ -93,9 +101,23 @@ def case(args):
                 nodes[j](p)
             except Exception:
                 pass
+        if lose and kind != "mem":
+            for dp, dn, fns in os.walk(os.path.join(top, "s", "c", ".versions")):
+                for fname in fns:
+                    os.unlink(os.path.join(dp, fname))
+            if kind == "fsc":
+                b = mk_backend(kind, os.path.join(top, "s"))  # (nothing of it in a memory cache either)
+                use(b)
         try:
             if mode == "single":
                 fx.n0(plan)
+            elif mode == "thread":
+                # the root call is made in a worker thread (not the thread that imported the library)
+                import threading
+
+                th = threading.Thread(target=lambda: _quiet(fx.n0, plan))
+                th.start()
+                th.join()
             elif mode == "batch1":
                 fx.n0.call_batch([{"plan": plan}], raise_first_exception=False)
             else:
@@ -136,9 +158,9 @@ def case(args):
                     bad = ("result-type", "n%d(%s) recorded result type %s, call tree raises=%s" % (i, rec["plan"], im.result_type.name, rec["raises"]))
             if bad:
                 acts = "+".join(a[0] for a in rec["plan"])
-                sig = "%s|%s|premem:%s|level:%s|acts:%s|%s" % (kind, mode, "some" if pre else "none", "root" if i == 0 else "inner", acts, bad[0])
+                sig = "%s|%s|premem:%s%s|level:%s|acts:%s|%s" % (kind, mode, "some" if pre else "none", "+results-lost" if lose else "", "root" if i == 0 else "inner", acts, bad[0])
                 out["violations"].append((sig, bad[1] + "\nbackend=%s mode=%s root plan=%s pre-memoized=%s" % (kind, mode, plan, pre),
-                                          {"case": [kind, mode, plan, pre, other]}))
+                                          {"case": [kind, mode, plan, pre, other, bool(lose)]}))
                 break
         out["outcomes"].append("%s|%s" % (json.dumps(plan), len(pre)))
     finally:
@@ -264,6 +286,14 @@ def run(ctx):
                     if not thorough and (len(pre) + ci) % 2 and len(subs) > 2:
                         continue  # quick: alternate (backend, mode) pairs over the subsets
                     tasks.append((kind, mode, plan, list(pre), [["r", "other"]]))
+        # the root call made in a worker thread; and: the results (not the mementos) of the pre-memoized calls were lost
+        if len(plan) == 1 or thorough:
+            tasks.append(("fs", "thread", plan, [], [["r", "other"]]))
+            tasks.append(("mem", "thread", plan, list(subs[:1]), [["r", "other"]]))
+            for r in range(1, min(len(subs), 2) + 1):
+                for pre in itertools.combinations(subs[:3], r):
+                    tasks.append(("fs", "single", plan, list(pre), [["r", "other"]], True))
+                    tasks.append(("fsc", "batch1", plan, list(pre), [["r", "other"]], True))
     if ctx.seed:
         import random
 
@@ -341,7 +371,7 @@ def replay(ctx, art):
         print("REPLAY property=C10 result=%s" % bool(r["violations"]))
         return 1 if r["violations"] else 0
     c = art["artefact"]["case"]
-    r = case((c[0], c[1], c[2], [tuple(p) for p in c[3]], c[4]))
+    r = case((c[0], c[1], c[2], [tuple(p) for p in c[3]], c[4]) + ((True,) if len(c) > 5 and c[5] else ()))
     for v in r["violations"]:
         print(v[0], "\n", v[1])
     print("REPLAY property=C10 result=%s" % bool(r["violations"]))
